@@ -302,3 +302,35 @@ META["C05"] = dict(
     },
     assumptions=["strings containing ${ are excluded from the omegaconf comparison (interpolation is that mode's purpose)"],
 )
+
+META["C06"] = dict(
+    title="Unknown keys are never silently ignored; required keys are enforced",
+    level="exploration",
+    level_text="Mutation monitor over generated parsers (random subsets of: dotted groups, dataclass / Optional[dataclass] / "
+    "List[dataclass] arguments, class arguments incl. nested, List and Dict of classes, class groups, inner parsers, two levels of "
+    "subcommands; seven kinds of required keys): starting from a configuration that every channel accepts, one foreign key (unique "
+    "token, prefixes of defined names, '+'-suffixed names; scalar, empty mapping, mapping or null value) is inserted at every node "
+    "where the parser defines the keys, or one required key is removed / nulled; object, config string, --cfg string, --cfg file, "
+    "parse_path and argv must reject, the error must contain the foreign key; leftover argv and parse_known_args are probed.",
+    level_note="Trusted: the hand-written templates' list of nodes at which keys are defined by the parser (never under Dict-typed "
+    "values, Any or dict_kwargs). A case whose valid configuration is not accepted by all channels is skipped and counted.",
+    shards=g(4, 16),
+    budget=g(45, 300),
+    technique="mutation (insert foreign key / drop required key) monitor with accept/reject and error-message oracle across channels",
+    rule="a case is (mutation kind, node kind, channel, value class, token class, feature set); distinct by hash; non-trivial = the "
+    "unmutated configuration was accepted by every channel first.",
+    gates={
+        "mon.valid_baseline_accepted": g(20, 500),
+        "mon.foreign_key_insertions": g(2000, 40000),
+        "mon.required_key_mutations": g(300, 6000),
+        "st.node.top": g(30, 300), "st.node.group": g(30, 300), "st.node.dataclass": g(30, 300), "st.node.dataclass-nested": g(30, 300),
+        "st.node.dataclass-in-list": g(30, 300), "st.node.init_args": g(30, 300), "st.node.init_args-nested": g(30, 300),
+        "st.node.init_args-in-list": g(30, 300), "st.node.class-group": g(30, 300), "st.node.inner-parser": g(30, 300),
+        "st.node.subcommand-section": g(30, 300), "st.node.subcommand-section-level2": g(5, 100),
+        "st.required.required-option": g(30, 300), "st.required.required-subcommand": g(30, 300),
+        "st.required.required-param-of-selected-class": g(30, 300), "st.required.required-dataclass-field": g(30, 300),
+        "st.channel.argv": g(25, 400),
+        "mon.parse_known_args_refused": g(20, 300),
+    },
+    assumptions=["a foreign key beside class_path/init_args (spec level) is not among the levels the statement lists and is not inserted"],
+)
